@@ -17,7 +17,7 @@ from ..resolve import resolver
 from ..rules import api, arity, attr, sig, undef
 
 KEEP_LOGGING = True  # the log calls are typed and name-checked like any other call
-TECHNIQUE = "whole-package attribute-existence (R-ATTR), call-signature conformance incl. overrides (R-SIG), third-party API existence (R-API), definite assignment with syntactic path feasibility (R-UNDEF), undefined names (R-NAME), registry/branch-table agreement (R-REG), validation-before-sampling order (R-ORDER); R-NORM; dropped / nulled pickled attributes against their readers (adopted from C12.1)"
+TECHNIQUE = "whole-package attribute-existence (R-ATTR), call-signature conformance incl. overrides (R-SIG), third-party API existence (R-API), definite assignment with syntactic path feasibility (R-UNDEF), undefined names (R-NAME), registry/branch-table agreement (R-REG), validation-before-sampling order (R-ORDER); R-NORM; dropped / nulled pickled attributes against their readers (adopted from C12.1); inference-mode block audit"
 
 # Reviewed possibly-unbound reads: (function, name) -> why the unbound path is infeasible.
 UNDEF_REVIEWED = {
@@ -328,7 +328,7 @@ def undefined_names(prog, f):
 
 
 CLAIM = {
-    "text": "Decides the static necessary condition of the option property over the whole package: no code path (in particular none gated by a rarely used option) contains a construct that cannot execute - an attribute nobody defines (2500+ typed reads on self / typed fields / aliases), a keyword or positional the resolved callee or any possible override rejects (700+ resolved calls), a third-party name absent from the pinned numpy/scipy/torch/glasflow (1100+ paths), a local unbound on a syntactically feasible path, an undefined name; every option registry (proposal classes, flows, activations, latent priors, stopping criteria, threshold methods, reparameterisations) agrees with the branch table that consumes it; option validation is reached from the constructor before the loop. The stale INS post-sampling option paths it finds on the pinned tree are recorded as known findings. Constructor definite assignment: over 789 (class, instance attribute) pairs no constructor chain can read an attribute before some path has written it, modulo reads under the same tests as the write (R-INIT; found and repaired: DistanceReparameterisation without boundary inversion). Stopping criteria stay paired with their tolerances (shared with C15.1). Option strings are compared under one normalisation (R-NORM). Options are also checked across a checkpoint / resume (C20.5): every attribute a __getstate__ drops or nulls is rebuilt on the resume path or read only under options that exclude the nulling, so an option that works in one go cannot die after a resume for lack of state.",
+    "text": "Decides the static necessary condition of the option property over the whole package: no code path (in particular none gated by a rarely used option) contains a construct that cannot execute - an attribute nobody defines (2500+ typed reads on self / typed fields / aliases), a keyword or positional the resolved callee or any possible override rejects (700+ resolved calls), a third-party name absent from the pinned numpy/scipy/torch/glasflow (1100+ paths), a local unbound on a syntactically feasible path, an undefined name; every option registry (proposal classes, flows, activations, latent priors, stopping criteria, threshold methods, reparameterisations) agrees with the branch table that consumes it; option validation is reached from the constructor before the loop. The stale INS post-sampling option paths it finds on the pinned tree are recorded as known findings. Constructor definite assignment: over 789 (class, instance attribute) pairs no constructor chain can read an attribute before some path has written it, modulo reads under the same tests as the write (R-INIT; found and repaired: DistanceReparameterisation without boundary inversion). Stopping criteria stay paired with their tolerances (shared with C15.1). Option strings are compared under one normalisation (R-NORM). Options are also checked across a checkpoint / resume (C20.5): every attribute a __getstate__ drops or nulls is rebuilt on the resume path or read only under options that exclude the nulling, so an option that works in one go cannot die after a resume for lack of state. Inside torch.inference_mode() / no_grad() blocks only evaluation calls are made (C20.6: module state created there cannot be updated in place later).",
     "note": "Does not decide termination of population loops (depends on acceptance rates), wall-clock bounds or result invariants of completed runs. Receiver types are inferred flow-insensitively plus a frozen table for dynamically chosen classes (sa/tables.py); classes with bases outside the package are undecidable for names they do not define and are skipped; user subclasses and entry points are outside the program.",
 }
 
